@@ -641,3 +641,18 @@ Fixpoint wild_last_only_c (cs : list bytes) : bool :=
   end.
 Definition wild_last_only (reqs : list bytes) : bool :=
   forallb (fun s => wild_last_only_c (norm_clamp (comps s))) reqs.
+
+(* well-formed views: what a file system can hold (names are single non-special
+   components, distinct among siblings; only directories have entries) *)
+Definition name_ok (c : bytes) : bool :=
+  negb (is_nil c) && negb (bytes_eqb c s_dot) && negb (bytes_eqb c s_dotdot) && negb (has_sep c).
+Fixpoint names_distinct (l : list bytes) : bool :=
+  match l with [] => true | a :: r => negb (mem a r) && names_distinct r end.
+Fixpoint wf_node (n : node) {struct n} : bool :=
+  match n with
+  | Node name st _ kids =>
+    name_ok name && (mode_is_dir (st_mode st) || is_nil kids) && names_distinct (map node_name kids) &&
+    (fix go (l : list node) : bool := match l with [] => true | k :: r => wf_node k && go r end) kids
+  end.
+Definition wf_view (view : list node) : bool :=
+  names_distinct (map node_name view) && forallb wf_node view.
